@@ -3,7 +3,7 @@
    followed by Print Assumptions.  Model: Chan/ModelMpsc.v (dfir_rs/src/util/unsync/mpsc.rs). *)
 From Coq Require Import List Arith Bool NArith.
 From HV Require Import Chan.ModelMpsc Chan.ModelMpscChk Chan.PMpscSafe Chan.PMpscLive Chan.PMpscRefute.
-From HV Require Import Chan.ModelMpscFixed Chan.PMpscFixed.
+From HV Require Import Chan.PMpscAll.
 Import ListNotations.
 
 (* Safety, every executor policy (also spurious polls and cancelled senders), every number of
@@ -36,20 +36,26 @@ Theorem C16_closure_consistent : forall p c progs tr s l s' o,
 Proof. exact closure_consistent. Qed.
 Print Assumptions C16_closure_consistent.
 
-(* Liveness as absence of the bad quiescent state.  FULL statement of the property:
-     forall policy c progs tr s, cap_ok c -> reachable policy (init c progs) tr s -> ~ Stranded s.
-   It is FALSE of the code (three refutations below, each replayed on the real crate).
-   Proved for the class that excludes them by name: tasks polled only when woken and senders
-   dropped only when finished (policy `strict`), one outstanding send per task
-   (`single_progs`, an executable predicate). Any number of tasks, any capacity. *)
-Theorem C16_no_strand : forall c progs tr s,
-  cap_ok c = true -> single_progs progs = true ->
-  reachable strict (init c progs) tr s -> ~ Stranded s.
-Proof. exact no_strand. Qed.
+(* Liveness as absence of the bad quiescent state -- the FULL statement, no class restriction:
+   for EVERY executor policy (tasks polled only when woken or also spuriously, sender tasks
+   dropped at any time), any number of tasks, any number of outstanding sends per task, any
+   capacity, all label sequences, no reachable state is Stranded (nothing runnable, some sender
+   waits for capacity, the buffer has room).
+   History: before /repo commit 904d17adb85 `wake_sender` popped one waker and this statement
+   was false; the three witnesses (Chan/PMpscRefute.v: no_strand_refuted,
+   no_strand_spurious_refuted, no_strand_cancel_refuted, stated over the pre-fix step function
+   ModelMpscOld.step_old) were
+     w1: cap 1, progs [[9]] [[3]] [[1;2]], Poll 0; Poll 1; Poll 2; PollRx; Poll 2; PollRx; Poll 2; PollRx; PollRx
+     w2: cap 1, progs [[9]] [[3]] [[1]], spurious: Poll 0; Poll 1; Poll 2; Poll 2; PollRx; Poll 2; PollRx; PollRx
+     w3: cap 1, progs [[9]] [[3]] [[1]], cancel: Poll 0; Poll 1; Poll 2; PollRx; DropSender 2; PollRx
+   They stay in corpus/C16 and are replayed first on every run; they must not strand any more. *)
+Theorem C16_no_strand : forall p c progs tr s,
+  reachable p (init c progs) tr s -> ~ Stranded s.
+Proof. exact no_strand_all. Qed.
 Print Assumptions C16_no_strand.
 
-(* stronger progress form (also when the buffer is full): a waiting sender always coexists
-   with a runnable task, so a fair executor always has something to poll *)
+(* stronger progress form for the strict single-outstanding class (also when the buffer is
+   full): a waiting sender always coexists with a runnable task *)
 Theorem C16_waiting_implies_runnable : forall c progs tr s t,
   cap_ok c = true -> single_progs progs = true ->
   reachable strict (init c progs) tr s ->
@@ -57,27 +63,6 @@ Theorem C16_waiting_implies_runnable : forall c progs tr s t,
   rx_runnable s = true \/ exists u, u < ntasks s /\ runnable (tasks s u) = true.
 Proof. exact waiting_implies_runnable. Qed.
 Print Assumptions C16_waiting_implies_runnable.
-
-(* finding 1: two outstanding sends in one task (strict executor) *)
-Theorem C16_no_strand_refuted :
-  exists s, reachable strict (init (Some 1) w1_progs) w1_trace s /\ Stranded s /\
-            cap_ok (Some 1) = true.
-Proof. exact no_strand_refuted. Qed.
-Print Assumptions C16_no_strand_refuted.
-
-(* finding 2: one outstanding send per task, but a pending send is polled again without a wake *)
-Theorem C16_no_strand_spurious_refuted :
-  exists s, single_progs w2_progs = true /\
-            reachable (mkPolicy true false) (init (Some 1) w2_progs) w2_trace s /\ Stranded s.
-Proof. exact no_strand_spurious_refuted. Qed.
-Print Assumptions C16_no_strand_spurious_refuted.
-
-(* finding 3: one outstanding send per task, polled only when woken, a woken sender is dropped *)
-Theorem C16_no_strand_cancel_refuted :
-  exists s, single_progs w3_progs = true /\
-            reachable (mkPolicy false true) (init (Some 1) w3_progs) w3_trace s /\ Stranded s.
-Proof. exact no_strand_cancel_refuted. Qed.
-Print Assumptions C16_no_strand_cancel_refuted.
 
 (* The receiver's side of "reports closure consistently to both sides" as absence of the dual
    bad quiescent state (nothing runnable, receiver parked, and an item is buffered or every
@@ -90,43 +75,42 @@ Theorem C16_no_rx_strand : forall c progs tr s,
 Proof. exact no_rx_strand. Qed.
 Print Assumptions C16_no_rx_strand.
 
-(* finding 4: close_this_sender of the last sender does not wake the parked receiver *)
+(* finding (still present): close_this_sender of the last sender does not wake the parked receiver *)
 Theorem C16_no_rx_strand_refuted :
   exists s, single_progs w4_progs = true /\
             reachable strict (init (Some 1) w4_progs) w4_trace s /\ RxStranded s.
 Proof. exact no_rx_strand_refuted. Qed.
 Print Assumptions C16_no_rx_strand_refuted.
 
-(* The proposed repair (fixes/C16_wake_all_senders.diff: wake every registered sender on recv),
-   applied to the model: no stranded sender for EVERY executor policy (spurious polls, dropped
-   senders), any number of outstanding sends per task, any capacity, all label sequences.
-   (A statement about the repaired model only; the repair is not applied to /repo.) *)
-Theorem C16_fix_no_strand : forall p c progs tr s,
-  reachable_fixed p (init c progs) tr s -> ~ Stranded s.
-Proof. exact fix_no_strand. Qed.
-Print Assumptions C16_fix_no_strand.
-
 (* ------------------------------------------------------------------ non-vacuity *)
 
-(* the hypotheses of C16_no_strand hold of a run in which two senders really wait for capacity
-   and are woken again: capacity 1, three single-send tasks *)
+(* a run in which three senders really wait for capacity (registered in order 0,1,2) and are
+   all woken again by one recv: capacity 1 *)
 Definition ex_progs : list (list (list item)) := [[[9%N]; [8%N]]; [[3%N]]; [[1%N]]].
 Definition ex_trace : list label := [Poll 0; Poll 0; Poll 1; Poll 2; PollRx].
 
 Example C16_no_strand_nonvacuous :
-  cap_ok (Some 1) = true /\ single_progs ex_progs = true /\
   exists s, reachable strict (init (Some 1) ex_progs) ex_trace s /\
-            sw s = [1; 0] /\ waiting (tasks s 1) = true /\ runnable (tasks s 2) = true /\
-            recvd s = [9%N].
+            sw s = [] /\ woken (tasks s 0) = true /\ runnable (tasks s 1) = true /\
+            runnable (tasks s 2) = true /\ recvd s = [9%N] /\
+  exists s0, reachable strict (init (Some 1) ex_progs) (removelast ex_trace) s0 /\
+             sw s0 = [2; 1; 0] /\ waiting (tasks s0 1) = true.
 Proof.
-  split; [reflexivity|]. split; [reflexivity|].
   destruct (run_enabled strict (init (Some 1) ex_progs) ex_trace) as [s|] eqn:E;
     [|vm_compute in E; discriminate].
+  destruct (run_enabled strict (init (Some 1) ex_progs) (removelast ex_trace)) as [s0|] eqn:E0;
+    [|vm_compute in E0; discriminate].
   exists s. split; [apply run_enabled_reachable; exact E|].
-  assert (H : option_map (fun s => (sw s, waiting (tasks s 1), runnable (tasks s 2), recvd s))
+  assert (H : option_map (fun s => (sw s, woken (tasks s 0), runnable (tasks s 1), runnable (tasks s 2), recvd s))
                 (run_enabled strict (init (Some 1) ex_progs) ex_trace)
-              = Some ([1; 0], true, true, [9%N])) by (vm_compute; reflexivity).
-  rewrite E in H. cbn [option_map] in H. inversion H. repeat split; reflexivity.
+              = Some ([], true, true, true, [9%N])) by (vm_compute; reflexivity).
+  rewrite E in H. cbn [option_map] in H. inversion H.
+  assert (H0 : option_map (fun s => (sw s, waiting (tasks s 1)))
+                (run_enabled strict (init (Some 1) ex_progs) (removelast ex_trace))
+              = Some ([2; 1; 0], true)) by (vm_compute; reflexivity).
+  rewrite E0 in H0. cbn [option_map] in H0. inversion H0.
+  repeat split; try congruence.
+  exists s0. split; [apply run_enabled_reachable; exact E0|]. split; congruence.
 Qed.
 
 (* closure consistency is not vacuous: a run with a close, a failing send and a final None *)
@@ -136,13 +120,17 @@ Example C16_closure_nonvacuous :
      OAct []].
 Proof. vm_compute. reflexivity. Qed.
 
-(* the executable form used by the correspondence check flags the witness of finding 1 *)
-Example C16_holds_b_flags_witness :
-  C16_fail_mask (Some 1) w1_progs w1_trace (fst (run strict (init (Some 1) w1_progs) w1_trace)) = 16%N.
+(* the former witnesses no longer strand: task 1 is woken by the first recv *)
+Example C16_former_witness1_ok :
+  option_map (fun s => (stranded_b s, woken (tasks s 1)))
+    (run_enabled strict (init (Some 1) w1_progs) w1_trace) = Some (false, true).
 Proof. vm_compute. reflexivity. Qed.
 
-(* on the trace of finding 1 the repaired model wakes the parked task 1 at the first recv *)
-Example C16_fix_on_witness1 :
-  option_map (fun s => (stranded_b s, woken (tasks s 1)))
-    (run_enabled_fixed strict (init (Some 1) w1_progs) w1_trace) = Some (false, true).
+(* the executable form used by the correspondence check flags a stranded sender: the
+   observations the pre-fix code produced on witness 1 *)
+Example C16_holds_b_flags_strand :
+  C16_fail_mask (Some 1) w1_progs w1_trace
+    [OPoll [SSent] true []; OPoll [SFull] false []; OPoll [SFull; SFull] false [];
+     ORecv (RSome 9%N) [WSend 2]; OPoll [SSent; SFull] false []; ORecv (RSome 1%N) [WSend 2];
+     OPoll [SSent] true []; ORecv (RSome 2%N) [WSend 2]; ORecv RPending []] = 16%N.
 Proof. vm_compute. reflexivity. Qed.
